@@ -102,6 +102,27 @@ def gen_scenario(rnd, shape):
     return b.finish()
 
 
+def gen_cursor_sweep(k, pos, f):
+    """k healthy targets; `pos` requests put the round-robin cursor on a chosen slot; then target f fails a probe (the
+    rotation shrinks under the cursor), requests, the target recovers, requests: strict rotation over the healthy set must
+    go on from every cursor position (in particular from the LAST slot of the rotation that shrinks)."""
+    b = c01.Builder(random.Random(k * 100 + pos * 10 + f))
+    b.meta["shape"] = {"mix": "cursor-sweep", "k": k, "pos": pos, "fails": f}
+    host, name = b"a.example.com", b"web"
+    scripts = [["ok"] for _ in range(k)]
+    scripts[f] = ["ok", "refused", "refused", "ok"]          # fails the probes at 1 s and 2 s, recovers at 3 s
+    b.deploy(name, host, scripts, 5 * SEC, 500 * MS, async_=False)
+    for _ in range(pos):
+        b.request(host, "burst")
+    b.sleep(1 * SEC + 100 * MS)
+    for _ in range(2 * k + 1):
+        b.request(host, "burst")
+    b.sleep(2 * SEC)
+    for _ in range(2 * k + 1):
+        b.request(host, "burst")
+    return b.finish()
+
+
 def gen_d12(rnd, variant):
     """Drains with probes in between (suspected defect D12): pause with hanging requests."""
     b = c01.Builder(rnd)
@@ -199,6 +220,7 @@ def run(tier, seed):
         shapes = gen_shapes(rnd, n_directed)
         sm = [gen_scenario(rnd, sh) for sh in shapes]
         sm += [gen_d12(rnd, "flip" if i % 2 == 0 else "restore") for i in range(n_d12)]
+        sm += [gen_cursor_sweep(k, pos, f) for k in ((2, 3) if tier == "quick" else (2, 3, 4, 5)) for pos in range(k + 1) for f in range(k)]
         scenarios = [s for s, _ in sm]
         metas = [m for _, m in sm]
         rand = m5lb.random_scenarios(rnd, n_random, PROFILES, 8, 25)
